@@ -37,6 +37,8 @@ func execJob(job *Job) (res Result) {
 		return runFree(job)
 	case "burst":
 		return runBurst(job)
+	case "race":
+		return runRace(job)
 	}
 	return Result{ID: job.ID, Kind: job.Kind, Err: "unknown job kind"}
 }
@@ -269,7 +271,11 @@ func runParent(args []string) error {
 						continue
 					}
 				}
-				res, err := wp.do(j, time.Duration(j.DeadlineMs)*time.Millisecond*3+60*time.Second)
+				wd := time.Duration(j.DeadlineMs)*time.Millisecond*3 + 60*time.Second
+				if m := time.Duration(j.MaxMs) * time.Millisecond; m > wd {
+					wd = m
+				}
+				res, err := wp.do(j, wd)
 				if err != nil {
 					wp.kill()
 					wp = nil
